@@ -27,7 +27,7 @@ def fixed_ids():
 FIXED = fixed_ids()
 # witnesses (known/C01.ndjson ids) that a fix id covers when it is not simply the same id
 FIX_COVERS = {'K09': ['K09a', 'K09b'], 'K13': ['K13a', 'K13b'], 'K15': ['K15a', 'K15b'], 'K19': ['K19a', 'K19b'], 'K17': ['K17d', 'K17e'],
-              'K08': ['K08a', 'K08b'], 'K05': ['K05', 'K05b']}
+              'K08': ['K08a', 'K08b']}
 
 
 def witness_fixed(wid):
@@ -568,7 +568,9 @@ _ex(r'\bvar\s+let\b|\(\s*let\b|\blet\s*[.(`:]|function\s+let\b|\blet\s*\[[^\]]*\
 _ex(r'class\b[^{]*\{[^}]*\basync\s*\n', 'K21 class field named async followed by a newline (parsed as async method)')
 _ex(r'\\u005[cC]|\\u\{0*5[cC]\}', 'K22a \\u005c / \\u{5c} in string literals (decoded to an unescaped backslash)')
 _ex(r'\\[23][0-7][0-7]', 'K22b legacy octal escapes \\200..\\377 in string literals (written as one raw byte: invalid UTF-8)')
-_ex(r'\\00+[0-9]|\\0[89]', 'K22c \\00 / \\000 / \\0 followed by a digit in string literals (\\0007 -> \\07; \\09 inside a template)')
+_ex(r'\\000[0-9]', "K22c \\000 followed by a digit in string literals ('\\0007' -> \"\\07\")")
+_ex(r'\\00?[89]', 'K22d \\0 / \\00 followed by 8 or 9 in string literals (kept as \\08, \\09 inside a template literal: SyntaxError)')
+_ex(r'\\0{1,3}\\(x3[0-9]|u003[0-9]|u\{0*3[0-9]\}|6[0-7]|7[01])', "K22g a NUL escape followed by an escape that decodes to a digit ('\\0\\x31' -> \"\\01\")")
 _ex(r"""\\0["']\s*\+\s*["'][0-9]""", "K22e '\\0'+'1' merged to \"\\01\"")
 _ex(r'0[xX][0-9a-fA-F_]{11,}n|0[bB][01_]{64,}n|0[oO][0-7_]{22,}n', 'K24 long hexadecimal/binary/octal BigInt literals (the n suffix is dropped)')
 _ex(r'\?\s*\(?\s*([A-Za-z_$][\w$]*)\(([^(),]*)\)\s*\)?\s*:\s*\(?\s*\1\(([^(),]*)\)', 'K25 cond?f(x):f(y) (rewritten to f(cond?x:y): the callee is read before the condition is evaluated)')
@@ -1913,7 +1915,7 @@ def structural_programs(ctx):
 ESCAPES = [
     r'\0', r'\00', r'\000', r'\x00', r'\u0000', r'\u{0}', r'\u{000000}', r'\1', r'\7', r'\12', r'\15', r'\101', r'\377', r'\400',
     r'\42', r'\47', r'\140', r'\134', r'\8', r'\9', r'\x41', r'\x0a', r'\x0A', r'\x0d', r'\x22', r'\x27', r'\x60', r'\x5c', r'\x5C',
-    r'\x7f', r'\x80', r'\xff', r'\xe9', r'\x24', r'\u0041', r'\u000a', r'\u000A', r'\u000d', r'\u0022', r'\u0027', r'\u0060',
+    r'\x7f', r'\x80', r'\xff', r'\xe9', r'\x24', r'\x31', r'\x38', r'\61', r'\u0037', r'\u0041', r'\u000a', r'\u000A', r'\u000d', r'\u0022', r'\u0027', r'\u0060',
     r'\u005c', r'\u0024', r'\u00e9', r'\u2028', r'\u2029', r'\ud83d\ude00', r'\ud800', r'\udc00', r'\ufeff', r'\uffff',
     r'\u{41}', r'\u{a}', r'\u{A}', r'\u{d}', r'\u{22}', r'\u{27}', r'\u{60}', r'\u{5c}', r'\u{24}', r'\u{000041}', r'\u{1F600}',
     r'\u{10FFFF}', r'\u{10ffff}', r'\u{D800}', r'\u{2028}',
